@@ -3,7 +3,7 @@
    blocks, live cells, or the kind of memory error), the CPython reference run (per
    phase: printed values, live data, or the exception), and the single-owner guard. *)
 From Coq Require Import ZArith List Bool.
-From RV Require Import Base.Wire Device.DList Device.DListProg Device.DListLen.
+From RV Require Import Base.Wire Device.DList Device.DListProg Device.DListLen Device.DListArm.
 Import ListNotations.
 Open Scope Z_scope.
 
@@ -236,6 +236,37 @@ Fixpoint folded_lens (fe : tstmt -> tenv) (t : tenv) (ss : list gstmt) : list wv
        end) ++ folded_lens fe (track1 (is_gated g) t s) r
   end.
 
+(* the statements of an arm of an if / try statement: the wire forms 3 4 12 13 14 5 *)
+Definition from_t (s : tstmt) : option astmt :=
+  match s with
+  | TAppend x (TConst v) => Some (AApp x v)
+  | TAppend x (TRt o) => Some (AAppRt x o)
+  | TRemove x (TConst v) => Some (ARem x v)
+  | TRemove x (TRt o) => Some (ARemRt x o)
+  | TGetLen x y sg k => Some (ARead x y sg k)
+  | TGet x i => Some (AGet x i)
+  | _ => None
+  end.
+
+Fixpoint un_arm (l : list wv) : option (list astmt) :=
+  match l with
+  | [] => Some []
+  | v :: r => match un_tstmt v with
+              | Some s => match from_t s, un_arm r with Some a, Some ar => Some (a :: ar) | _, _ => None end
+              | None => None
+              end
+  end.
+
+Fixpoint un_arms (l : list wv) : option (list (list astmt)) :=
+  match l with
+  | [] => Some []
+  | WL a :: r => match un_arm a, un_arms r with Some a', Some r' => Some (a' :: r') | _, _ => None end
+  | _ => None
+  end.
+
+Definition w_lens (ls : list (list (option nat))) : wv :=
+  WL (map (fun l => WL (map (fun o => WI (match o with Some n => Z.of_nat n | None => -1 end)) l)) ls).
+
 (* case: (0 (setup stmts) (body stmts) n)  ->  (0 guard (fw phases) (py phases) frozen_ok value_ok)      py phase = (0 (outs) live named)
    case: (1 (setup stmts) (body stmts) (gates) (g values, one per pass))  ->  the same for the
          history in which pass k executes the body statements whose gate t satisfies t < g_k
@@ -279,6 +310,24 @@ Definition run (v : wv) : wv :=
                WL (tp_trace ss body cs);
                WL (let t1 := loop_env (fst (track false [] [] (ungated ss))) body in folded_lens (fn_first (rebound ss body) t1 body) t1 body)]
       | _, _, _, _ => wbad
+      end
+  | WL [WI 3; WL pre; WL arms; WI k; WL post; WL b; WL cvals] =>
+      (* the statements [pre], then ONE if / elif / else (try / except) statement with the arms [arms] of which arm k is the
+         one taken at run time, then the top-level statements [post] (reads), then the main loop [b]:  ->  (0 len_ok-of-the-taken-path (fw phases) (py phases)
+         (the lengths the parser folds in every arm: one list per arm, one entry per statement, -1 = none / run-time)
+         (the same for the parser that copies the environment once per statement)
+         ((the lengths folded in [post]: the names some arm writes are forgotten))) *)
+      match un_tstmts pre, un_arms arms, un_tstmts b, un_ints cvals, un_tstmts post with
+      | Some ps, Some ars, Some bs, Some cs, Some po =>
+          let setup := taken_path ps ars (Z.to_nat k) ++ po in
+          let body := ungated bs in
+          wok [wbool (len_ok setup body);
+               WL (tf_trace setup body cs);
+               WL (tp_trace setup body cs);
+               w_lens (arm_lens ps ars);
+               w_lens (arm_lens_shared ps ars);
+               w_lens [after_lens ps ars po]]
+      | _, _, _, _, _ => wbad
       end
   | _ => wbad
   end.
